@@ -111,6 +111,20 @@ PROF = '    let prof = if cfg!(debug_assertions) { "dev" } else { "release" };\n
 RUN = "pub fn run(o: &mut Out, ins: &std::collections::HashMap<u32, Vec<String>>, seed: u64) {\n"
 
 
+def default_disabled_def(did, pos):
+    """a catch-all (`default`) variant that is also `disabled`, first / in the middle / last: it is a disabled variant like any other"""
+    other = variant("Other", "tuple", [field("String")], default=True, dis=True)
+    vs = [variant("A"), variant("B", "tuple", [field("u8")]), variant("Off", dis=True), variant("C", "named", [field("bool", "flag")])]
+    vs.insert({"first": 0, "middle": 2, "last": len(vs)}[pos], other)
+    return enum(did, vs)
+
+
+def nodefault_def(did):
+    """a type parameter WITHOUT a Default bound (instantiated with a type that has none) under payloads that are Default for every T"""
+    return enum(did, [variant("Unit"), variant("Opt", "tuple", [field("optT")]), variant("Named", "named", [field("phT", "p"), field("u8", "n")]),
+                      variant("Off", "tuple", [field("optT")], dis=True)], generics="tynd")
+
+
 def selfref_def(did):
     """a recursive enum whose own Default is written through its iterator ("the first variant"): well founded as long as an
     item is built only when it is yielded"""
